@@ -22,6 +22,8 @@ type Config struct {
 	CarV1      bool      `json:"car_v1,omitempty"`
 	MaxIdxCid  uint64    `json:"max_index_cid,omitempty"` // 0 default
 	ZeroEOF    bool      `json:"zero_eof,omitempty"`
+	MaxHeader  uint64    `json:"max_header,omitempty"`
+	MaxSection uint64    `json:"max_section,omitempty"`
 	Roots      []BlkSpec `json:"roots"`
 }
 
@@ -53,6 +55,12 @@ func (c Config) Options() []carv2.Option {
 	}
 	if c.ZeroEOF {
 		o = append(o, carv2.ZeroLengthSectionAsEOF(true))
+	}
+	if c.MaxHeader > 0 {
+		o = append(o, carv2.MaxAllowedHeaderSize(c.MaxHeader))
+	}
+	if c.MaxSection > 0 {
+		o = append(o, carv2.MaxAllowedSectionSize(c.MaxSection))
 	}
 	return o
 }
